@@ -4,6 +4,7 @@ package main
 import (
 	"fmt"
 	"time"
+	_ "time/tzdata"
 
 	"go.lstv.dev/util/date"
 	"verif/mc"
@@ -14,6 +15,31 @@ type ymd struct {
 	Y int64 `json:"y"`
 	M int   `json:"m"`
 	D int   `json:"d"`
+}
+
+type zoneArg struct {
+	A    ymd    `json:"date"`
+	Zone string `json:"time_local"`
+}
+
+var defaultLocal = time.Local
+
+func setupZone(a zoneArg) {
+	time.Local = defaultLocal
+	if loc, err := time.LoadLocation(a.Zone); err == nil && a.Zone != "" {
+		time.Local = loc
+	}
+}
+
+func probeZone(a zoneArg) (string, string) {
+	if k, d := probeAdjacent(a.A); k != "" {
+		return k, "with time.Local = " + a.Zone + ": " + d
+	}
+	nx := fromOrd(a.A.ord() + 40)
+	if k, d := probePair(pairArg{a.A, nx}); k != "" {
+		return k, "with time.Local = " + a.Zone + ": " + d
+	}
+	return "", ""
 }
 
 func (a ymd) date() date.Date { return date.New(int(a.Y), date.Month(a.M), a.D) }
@@ -268,6 +294,24 @@ func main() {
 				}
 			})
 		})
+		pZ := mc.NewProbe(r, "zone", setupZone, probeZone)
+		r.Reset = func() { time.Local = defaultLocal }
+		for _, z := range mc.Zones {
+			z := z
+			r.Phase(fmt.Sprintf("time.Local = %s: every day of 1880-2040 with its successor and the day 40 days later (order, Sub, DaysBetween, Add, AddDuration, Time)", z), "complete for the listed years", func() {
+				setupZone(zoneArg{Zone: z})
+				r.Parallel(161, 1, func(w *mc.W, i int64) {
+					y := 1880 + i
+					for m := 1; m <= 12; m++ {
+						for d := 1; d <= oracle.DaysIn(y, m); d++ {
+							w.Point()
+							pZ.Do(w, zoneArg{ymd{y, m, d}, z})
+						}
+					}
+				})
+				time.Local = defaultLocal
+			})
+		}
 		S := boundarySet()
 		r.Phase(fmt.Sprintf("all ordered pairs of %d boundary dates (month starts/ends of 15 years incl. -1,0,1,1582,9999; all of 2023-2024)", len(S)), "complete", func() {
 			n := int64(len(S))
